@@ -1204,6 +1204,11 @@ func Run(c *ev.Ctx) int {
 		defer wg.Done()
 		laneEcdsa(c)
 	}()
+	wg.Add(1)
+	go func() {
+		defer wg.Done()
+		laneDirObjects(c)
+	}()
 	// concurrent lane: integrity must not depend on what else the process decodes at the same moment
 	rc := c.Rng("concurrent")
 	modes := []string{"plain", "fewprocs", "race"}
